@@ -108,7 +108,16 @@ class DependencyGraph(DependencyGraphType):
         return set(
             rule.memento_fn
             for rule in self._all_rules
-            if hasattr(rule, "memento_fn") and rule.memento_fn != self.memento_fn
+            if hasattr(rule, "memento_fn") and not self._is_self(rule.memento_fn)
+        )
+
+    def _is_self(self, memento_fn: MementoFunctionType) -> bool:
+        # (this graph may have been asked of a modifier clone, while the function's own name
+        # resolves to the registered function)
+        return (
+            memento_fn is self.memento_fn
+            or memento_fn.qualified_name_without_version
+            == self.memento_fn.qualified_name_without_version
         )
 
     def direct_memento_fn_dependencies(self) -> Set[MementoFunctionType]:
@@ -118,7 +127,7 @@ class DependencyGraph(DependencyGraphType):
             is_memento_fn = hasattr(rule, "memento_fn") and rule.memento_fn is not None
             return (
                 is_memento_fn
-                and rule.memento_fn != self.memento_fn
+                and not self._is_self(rule.memento_fn)
                 and rule.first_level
             )
 
